@@ -52,10 +52,25 @@ for _w in TOOL_WORDS + ["if", "ifs", "iface", "sizeof", "return", "static", "str
 _PREFIX_BY_LEN = {k: sorted(v) for k, v in _PREFIX_BY_LEN.items()}
 
 
+WHOLE_WORDS = ["TAB", "SPACE", "NEWLINE", "COMMA", "COLON", "DOT", "NOT", "AND", "OR", "INT", "CHAR", "VOID", "LONG", "IDENTIFIER", "CONSTANT", "STRING", "HASH",
+               "PLUS", "MINUS", "MULT", "DIV", "MODULO", "ASSIGN", "EQUALS", "PTR", "INC", "DEC", "LBRACE", "RBRACE", "ELLIPSIS", "COMMENT", "NULL", "TRUE", "FALSE",
+               "EOF", "ERROR", "IF", "ELSE", "WHILE", "FOR", "DO", "RETURN", "STRUCT", "ENUM", "UNION", "TYPEDEF", "STATIC", "CONST", "SIZEOF", "GOTO", "LABEL", "CASE"]
+_WHOLE_BY_LEN = {}
+for _w in WHOLE_WORDS:
+    _WHOLE_BY_LEN.setdefault(len(_w), []).append(_w)
+
+
 def near_special(d, body):
     """a same-length, same-class name that is a fragment of a word the tool might treat specially
     (bugs in special-name handling live in a tiny region of the name space: go there on purpose)"""
-    which = d.int(0, 2)   # fragments of the tool's words / prefixes of special words (or such a word plus a tail) / fragments of any special word
+    which = d.int(0, 3)   # fragments of the tool's words / prefixes of special words (or plus a tail) / fragments of any special word / whole internal names
+    if which == 3:
+        # names of the tool's own token types and of keywords, in the case class of the identifier (TAB, SPACE, int -> INT ...)
+        ws = [w for w in _WHOLE_BY_LEN.get(len(body), []) if "_" not in body]
+        if ws and (body.isupper() or body.islower()):
+            w = d.choice(ws)
+            return w if body.isupper() else w.lower()
+        which = 2
     cands = (_TOOL_BY_LEN if which == 0 else _PREFIX_BY_LEN if which == 1 else _BY_LEN).get(len(body), [])
     up = body.isupper()
     ok = [c for c in cands if all((a in LOW or a in UP) == (b in LOW) and (a == "_") == (b == "_") and (a in DIG) == (b in DIG)
